@@ -13,10 +13,11 @@ LEVEL = "exploration"
 EXHAUSTIVE = True
 RULE = ("exhaustive parameter sets: every integer xor key 0..255 and its one-byte bytes form, byte keys of every length 1..80 "
         "(all-zero, zero-prefix/non-zero tail, random), rotation amounts -64..64 x groups 1..8 x lengths {0,g,3g}+every non-multiple, "
-        "ByteSwapped/BitsSwapped sizes 1..16 sized and unsized, codecs zlib/gzip/bzip2/lzma x levels; x data samples of length 0..300. "
+        "ByteSwapped/BitsSwapped sizes 1..16 sized and unsized, codecs zlib/gzip/bzip2/lzma x levels (output compared with the codec's own at that level); "
+        "x data samples of length 0..300; plus per-process sequences of all byte-aligned rotations over all group sizes in ascending, descending and shuffled order. "
         "non-trivial = case on a fast path or boundary (zero key, key length 64/65, whole-byte rotation, table rotation, non-multiple length); "
         "distinct by (transform, parameters, data class)")
-ASSUMPTIONS = ["gzip output is compared through decompression (it embeds a timestamp)"]
+ASSUMPTIONS = ["gzip output is compared outside its 4-byte timestamp field"]
 REQUIRED_ANCHORS = ["core:ProcessXor._parse", "core:ProcessXor._build", "core:ProcessRotateLeft._parse", "core:ProcessRotateLeft._build",
                     "core:ByteSwapped", "core:BitsSwapped", "core:Transformed._parse", "core:Transformed._build",
                     "core:Restreamed._parse", "core:Restreamed._build", "core:Tunnel._parse", "core:Tunnel._build",
